@@ -186,7 +186,7 @@ PROPS = {
         engines=[("dispatch4", 4000, 60000), ("dispatch6", 4000, 60000), ("plugins", 3000, 50000)],
         theorems=["C13_order", "C13_stop", "C13_sends_last4", "C13_sends_last6", "C13_load_exact", "C13_load_aborts", "C13_load_succeeds"],
         modules=["CoreDhcp.Props.C13"],
-        facts=["F3", "F7"],
+        facts=["F3", "F7", "F9"],
         trusted_base=[TB_CODEC, TB_HOOK],
         assumptions=["'built-in handlers return nil only with stop' is checked syntactically on the source (fact F3) and per plugin model",
                      "every listener of a protocol is given the one chain LoadPlugins returned (fact F7)"],
@@ -195,7 +195,7 @@ PROPS = {
         engines=[("dispatch4", 6000, 100000)],
         theorems=["C15_holds", "C15_has_interface"],
         modules=["CoreDhcp.Props.C15"],
-        facts=["F5", "F6"],
+        facts=["F5", "F6", "F8"],
         trusted_base=[TB_CODEC, TB_HOOK, "the kernel delivers IP_PKTINFO when asked (fact F5 checks that listen4 asks exactly when unbound); the link-level send itself (sendEthernet) is not modelled"],
         assumptions=["the listener is bound to an interface or the kernel reported the receiving one; the excluded point (link-level reply with no interface information) dereferences a nil control message in the code and is `panicNoIf` in the model"],
     ),
